@@ -630,7 +630,7 @@ func (c *Conn) Close() error {
 	c.lastDel = at
 	c.mu.Unlock()
 	c.signal()
-	c.net.S.Logf("close %s", c.Name())
+	c.net.S.Tracef("close %s", c.Name())
 	if black {
 		return nil
 	}
